@@ -250,6 +250,7 @@ impl FnSpec {
             RetKind::Plain => "String",
             RetKind::ResultShort => "Result<String, String>",
             RetKind::ResultStd => "std::result::Result<String, String>",
+            RetKind::ResultPathArgs => "Result<String, std::string::String>",
         }
     }
 
@@ -560,7 +561,7 @@ pub fn static_corpus() -> Vec<FnSpec> {
     }
     // Result spellings
     for &fl in &flavours {
-        for &rk in &[RetKind::ResultShort, RetKind::ResultStd] {
+        for &rk in &[RetKind::ResultShort, RetKind::ResultStd, RetKind::ResultPathArgs] {
             for &p in &[Policy::Fifo, Policy::Lru, Policy::Lfu] {
                 for &(limit, mem) in &[(None, None), (Some(2usize), None), (None, Some(200usize)), (Some(2), Some(200))] {
                     let i = id();
@@ -604,6 +605,24 @@ pub fn static_corpus() -> Vec<FnSpec> {
                 s.cache_if = cif;
                 v.push(s);
             }
+        }
+    }
+    // thread scope combined with invalidation metadata (the scope must still be honoured)
+    for (k, &p) in [Policy::Fifo, Policy::Lru, Policy::Lfu, Policy::Random].iter().enumerate() {
+        for &limit in &[None, Some(2usize)] {
+            let i = id();
+            let mut s = FnSpec::new(i, &format!("thrtag_t_{:04}", i), "thrtag", Flavour::Thread);
+            s.policy = Some(p);
+            s.limit = limit;
+            match (k + limit.unwrap_or(0)) % 3 {
+                0 => s.tags = vec!["tt".into()],
+                1 => s.events = vec!["te".into()],
+                _ => s.deps = vec!["td".into()],
+            }
+            if k == 3 {
+                s.name = Some(format!("thrtag_named_{}", i));
+            }
+            v.push(s);
         }
     }
     // invalidate_on combined with ttl / limit (a refreshed entry starts a new lifetime)
@@ -858,9 +877,10 @@ pub fn random_spec(r: &mut Rng, id: u32, registry_mode: bool) -> FnSpec {
     if !registry_mode {
         s.invalidate_on = r.chance(1, 6);
         s.cache_if = r.chance(1, 6);
-        s.ret = match r.below(4) {
+        s.ret = match r.below(6) {
             0 => RetKind::ResultShort,
             1 => RetKind::ResultStd,
+            2 => RetKind::ResultPathArgs,
             _ => RetKind::Plain,
         };
         s.receiver = match r.below(9) {
